@@ -1,3 +1,4 @@
+import NitroVerif.Lemmas.OptResult
 import NitroVerif.Model.Opt
 import NitroVerif.Spec.Opt
 import NitroVerif.Props.C11
@@ -134,5 +135,55 @@ theorem splitSemi_clean (s : Str) : ∀ p ∈ splitSemi s, ';' ∉ p := by
 
 example : splitSemi ['a', ';', 'b', ';'] = [['a'], ['b']] := by decide
 example : splitSemi [';'] = [[]] := by decide
+
+
+/-- The ranking, read off the specification: command line, then a non-empty environment value
+(verbatim), then the default; `provided` exactly for the first two. -/
+theorem interpOpt_ranking (env : Env) (items : List Item) (o : OptD) :
+    (∀ v, cliValues o.name items = [v] → interpOpt env items o = .ok (some v, true)) ∧
+    (cliValues o.name items = [] → ∀ e, envNonEmpty env o.env = some e → interpOpt env items o = .ok (some e, true)) ∧
+    (cliValues o.name items = [] → envNonEmpty env o.env = none → ∀ dv, o.dflt = some dv →
+        interpOpt env items o = .ok (some dv, false)) ∧
+    (cliValues o.name items = [] → envNonEmpty env o.env = none → o.dflt = none →
+        interpOpt env items o = if o.optional then .ok (none, false) else .error .user) := by
+  unfold interpOpt
+  refine ⟨fun v h => by simp [h], fun h e he => by simp [h, he], fun h he dv hd => by simp [h, he, hd],
+    fun h he hd => by simp [h, he, hd]⟩
+
+theorem interpMul_ranking (env : Env) (items : List Item) (m : MulD) :
+    (∀ v vs, cliValues m.name items = v :: vs → interpMul env items m = .ok (v :: vs, true)) ∧
+    (cliValues m.name items = [] → ∀ e, envNonEmpty env m.env = some e →
+        interpMul env items m = .ok (splitSemi e, true)) ∧
+    (cliValues m.name items = [] → envNonEmpty env m.env = none → ∀ dv, m.dflt = some dv →
+        interpMul env items m = .ok (dv, false)) ∧
+    (cliValues m.name items = [] → envNonEmpty env m.env = none → m.dflt = none →
+        interpMul env items m = if m.optional then .ok ([], false) else .error .user) := by
+  unfold interpMul
+  refine ⟨fun v vs h => by simp [h], fun h e he => by simp [h, he], fun h he dv hd => by simp [h, he, hd],
+    fun h he hd => by simp [h, he, hd]⟩
+
+/-- **The ranking holds for `parse`**: whenever parsing succeeds, every declared option, multi-option
+and toggle is reported with the value `interpOpt` / `interpMul` / `interpTog` rank for it from the
+explanation of the command line and the environment, and is listed as provided when that value came
+from the command line or the environment. -/
+theorem parse_sources (d : Decl) (hn : (allNames d).Nodup) (env : Env) (argv : List Str) (r : Result)
+    (h : parse d env argv = .ok r) :
+    ∃ items, explain d argv = some items ∧
+      (∀ o ∈ d.opts, ∃ v p, interpOpt env items o = .ok (v, p) ∧ (o.name, v) ∈ r.opts ∧ (p = true → o.name ∈ r.provided)) ∧
+      (∀ m ∈ d.muls, ∃ vs p, interpMul env items m = .ok (vs, p) ∧ (m.name, vs) ∈ r.muls ∧ (p = true → m.name ∈ r.provided)) ∧
+      (∀ t ∈ d.togs, ∃ c p, interpTog env items t = .ok (c, p) ∧ (t.name, c) ∈ r.togs ∧ (p = true → t.name ∈ r.provided)) := by
+  obtain ⟨_, items, hex, hi⟩ := parse_ok_inv d hn env argv r h
+  obtain ⟨_, _, hO, hM, hT⟩ := interp_ok_inv d env items r hi
+  exact ⟨items, hex, hO, hM, hT⟩
+
+/-- a required option without any source makes parsing fail with the user-input error -/
+theorem required_without_source (d : Decl) (hn : (allNames d).Nodup) (hc : consistent d = true) (env : Env)
+    (argv : List Str) (items : List Item) (o : OptD) (ho : o ∈ d.opts) (hex : explain d argv = some items)
+    (hcli : cliValues o.name items = []) (henv : envNonEmpty env o.env = none) (hd : o.dflt = none)
+    (hreq : o.optional = false) : parse d env argv = .error .user := by
+  rw [parse_of_explain d hn hc env argv items hex]
+  have herr : interpOpt env items o = .error .user := by
+    rw [(interpOpt_ranking env items o).2.2.2 hcli henv hd, hreq]; rfl
+  exact interp_err_left d env items (Or.inl (mapAll_err _ _ o ho _ herr))
 
 end NitroVerif.Props.C03
